@@ -1069,6 +1069,13 @@ func rbValue(kind string, n int) (interface{}, int) {
 	case "big_slice":
 		s := make([]int, n)
 		return s, 0
+	case "keys_prefix": // n map keys sharing a long common prefix (radix/heap-sort fallbacks of the key sorter)
+		m := map[string]int{}
+		for i := 0; i < n; i++ {
+			suf := strings.Repeat(string(rune('a'+i%7)), i%5) + itoa(i*7919%1000)
+			m["commonprefix-"+strings.Repeat("p", 3+i%3*4)+suf] = i
+		}
+		return m, 0
 	case "big_map":
 		m := map[string]int{}
 		for i := 0; i < n; i++ {
@@ -1080,7 +1087,7 @@ func rbValue(kind string, n int) (interface{}, int) {
 }
 
 var rbMarKinds = []string{"cyc_ptr", "cyc_map", "cyc_slice", "cyc_iface", "cyc_tree", "cyc_treemap", "cyc_recm", "cyc_recl", "deep_ptr", "deep_slice", "deep_map",
-	"deep_mixed", "deep_recl", "deep_recm", "deep_tree", "deep_node", "nonenc", "badmar_big", "big_str", "big_bytes", "big_slice", "big_map"}
+	"deep_mixed", "deep_recl", "deep_recm", "deep_tree", "deep_node", "nonenc", "badmar_big", "big_str", "big_bytes", "big_slice", "big_map", "keys_prefix"}
 var rbMarCfgs = []string{"def", "std", "fast", "indent", "enc_sort", "stream", "enc_all", "tostring"}
 
 func rbMarshal(kind string, n int, cfg string) string {
